@@ -38,7 +38,10 @@ RULE = (
     'same files as C12 (all 326 builder programs, pixel-count x chunk-size grid, 1..20 runs in '
     'direct / indirect / mixed mode, string sweep, row-selection x dtype-plan grid over the public '
     'keywords rows/row_units/n_dims/title/byteorder, metadata unit/dtype classes, array-size ladder, '
-    'BytesIO and real files, real paths that already hold a file, second create() of one builder); '
+    'BytesIO and real files, real paths that already hold a file, second create() of one builder, and the '
+    'argument-form classes of C12: masked pixels (all N pixels stored, data_range over all N), variances on '
+    'coordinates / metadata, numpy / enum / subclass stand-ins for int / str / bool, calling conventions, stand-in '
+    'targets and model subclasses, second use after a failure, reader results fed back); '
     'supplied values: float64 rows over 1e-30..1e29 of either sign with '
     'forced {0, -0.0, float64 / float32 denormals, float32-exact, float32 halfway} in any convertible '
     'input unit, and (class extreme) finite float64 over 1e-320..1e300, i.e. beyond both ends of the float32 '
@@ -532,6 +535,11 @@ def judge_pixels(j, f, case, spec, buf, trace, full_filename):
                     except D.DecodeError:
                         got = None
                     ctx.event('content:data_range')
+                    mk = W.forms_of(case).get('masks')
+                    if mk:
+                        # every pixel is in the file, flagged or not: the range is the range of all N
+                        ctx.event('content:data_range_of_masked_pixels')
+                        ctx.hit('data_range:masks=' + mk)
                     if got is None or got.shape != (nr, 2):
                         j.bad('content_shape', blk, 'data_range',
                               f'stored shape {node.shape}, expected (2, {nr}) column-major', mechanism='shape',
@@ -995,7 +1003,8 @@ def requirements(tier):
         'events': {'content:files': 300, 'content:string': 2000, 'content:number': 4000,
                    'content:runs': 500, 'content:pixel_blocks': 200, 'content:pixels': 100000,
                    'content:pixels_beyond_float32': 200,
-                   'content:data_range': 100, 'content:histogram': 200, 'reader:blocks': 2000,
+                   'content:data_range': 100, 'content:data_range_of_masked_pixels': 10,
+                   'content:histogram': 200, 'reader:blocks': 2000,
                    'reader:variable': 2000, 'reader:unit_dimension': 2000, 'reader:plain': 2000},
         'forced': W.FORCED + ['value:forced', 'value:wide', 'value:extreme', 'row_unit_converted', 'row_float32',
                               'row_int_in_float_row', 'angle_deg', 'angle_rad', 'lattice_nm',
@@ -1004,7 +1013,8 @@ def requirements(tier):
                               'f32_finite:only_after_unit_conversion', 'f32_overflow:tie_at_threshold',
                               'f32_max:rounds_to_largest_finite', 'f32_max:exact', 'f32_underflow:to_zero',
                               'f32_underflow:denormal', 'reader_open:byteorder_deduced',
-                              'reader_open:byteorder_str', 'reader_open:byteorder_enum'],
+                              'reader_open:byteorder_str', 'reader_open:byteorder_enum',
+                              *('data_range:masks=' + k for k in W.MASK_CLASSES)],
     }
 
 
@@ -1038,12 +1048,16 @@ def run(shard, ctx):
         return
     items = W.items_of_shard(shard)
     tmpdir = tempfile.mkdtemp(prefix='rv-c13-')
-    state = {'case': None, 'target': None, 'spec': None, 'file': None, 'buf': None, 'judged': False}
+    state = {'case': None, 'target': None, 'spec': None, 'file': None, 'buf': None, 'judged': False,
+             'refused': False}
     tr = Tracer()
 
     def on_create_return(ev, trace):
         case, target, spec = state['case'], state['target'], state['spec']
         if case is None:
+            return
+        if W.expected_exception(ctx, case, ev.exc):
+            state['refused'] = state['refused'] or bool(case.get('may_refuse'))
             return
         state['judged'] = True
         if ev.exc is not None:
@@ -1068,17 +1082,23 @@ def run(shard, ctx):
                     rng = np.random.Generator(np.random.PCG64(case0['vseed']))
                     spec = W.gen_spec(rng, case0)
                     case0, spec = W.continue_from(session, case0, spec)
-                    models = W.build_models(S, sc, spec, case0.get('calls', case0['program']))
+                    models = W.build_models(S, sc, spec, case0.get('calls', case0['program']), case0)
                     W.describe_rows(case0, spec)
                     for case in W.case_reps(case0):
                         target = W.open_target(case, tmpdir, rng, session)
-                        state.update(case=case, target=target, spec=spec, file=None, buf=None, judged=False)
+                        state.update(case=case, target=target, spec=spec, file=None, buf=None, judged=False,
+                                     refused=False)
                         before = ctx.n_violations
                         try:
                             W.run_program(S, case, spec, models, target,
-                                          session if case.get('reuse_path') else None)
+                                          session if case.get('reuse_path') else None, ctx)
                         except Exception as e:  # noqa: BLE001  (create: judged by the monitor, PY_UNWIND)
-                            if not state['judged']:
+                            if state['refused']:
+                                pass
+                            elif not state['judged'] and case.get('may_refuse') and isinstance(e, W.REFUSAL):
+                                ctx.count('refusal:' + case['may_refuse'])
+                                state['refused'] = True
+                            elif not state['judged']:
                                 # a valid builder program did not get as far as create()
                                 ctx.violation('builder_raised', f'{type(e).__name__}: {str(e)[:200]} (before create)',
                                               W.case_summary(case), exception=type(e).__name__)
@@ -1089,7 +1109,7 @@ def run(shard, ctx):
                                 read_back(ctx, S, sc, case, spec, target, f, state['buf'], state.get('trace'))
                             except Exception:  # noqa: BLE001
                                 ctx.oracle_error('C13 read_back')
-                        elif not state['judged']:
+                        elif not state['judged'] and not state['refused']:
                             ctx.count('create_not_observed')
                         W.close_case(session, case, spec, target, f)
                         W.hit_forced(ctx, case, spec)
